@@ -683,7 +683,7 @@ M.contract(P_AX + ':ActionToCheckExecutor._do_execute', trusted=True,
            modifies={'self._atc_outcome': Opt(ATC_OUTCOME)},
            ensures={'an exit code is registered as outcome': lambda self, result:
            (not result.is_exit_code) or self._atc_outcome is not None},
-           may_raise=(HardErrorException, ArbitraryException))
+           raises={HardErrorException: {'shape': _HARD_ERROR}, ArbitraryException: {}})
 M.trust('stand-ins for contracts owned by C04: _PartialExecutor._env_vars__read_only returns a mapping or None; '
         'ActionToCheckExecutor._do_execute returns an ExitCodeOrHardError, has registered the outcome when it is an '
         'exit code, and may raise HardErrorException or any other exception (from the ATC or from file operations)')
@@ -737,3 +737,290 @@ def _atc_step_contract(method, step, event, kind_of_result, stage):
 
 for _m, (_step, _event, _kind, _stage) in ATC_STEPS.items():
     _atc_step_contract(_m, _step, _event, _kind, _stage)
+
+M.contract(P_EX + ':_PartialExecutor._act__execute', params=dict(self=_mk_partial_executor('act')),
+           event='_act__execute', old=lambda self: result_state(self), returns=Const(None),
+           modifies={'self._act_phase_executor._atc_outcome': Opt(ATC_OUTCOME)},
+           ensures={
+               'executes the action to check once; it gave an exit code': lambda self, trace:
+               len(calls_of(trace, 'atc-execute')) == 1
+               and calls_of(trace, 'atc-execute')[0][1]['self'] is self._act_phase_executor
+               and eh_kind(outcome_event(trace, 'atc-execute')[1]) is None,
+               'the outcome of the action to check is registered': lambda self:
+               self._act_phase_executor.action_to_check_outcome is not None,
+               'keeps sandbox and outcome of the action to check': lambda self, old: keeps_result_state(self, old),
+           },
+           raises={PhaseStepFailureException: {
+               'shape': Inst(PhaseStepFailureException, failure=act_failure_shape(S.ACT__EXECUTE)),
+               'ensures': lambda self, exc, old, trace:
+               len(calls_of(trace, 'atc-execute')) == 1
+               and exc.failure.status.name == failure_kind_of_call(trace, 'atc-execute', eh_kind)
+               and exc.failure.failure_info.phase_step is S.ACT__EXECUTE
+               and keeps_result_state(self, old)}},
+           raises_only=())
+
+
+def _new_atc_executor(interp, name, env):
+    self = env['self']
+    return Inst(pax.ActionToCheckExecutor,
+                atc=self._action_to_check, environment_for_validate_post_setup=Iface(PostSdsEnvI),
+                environment_for_other_steps=Iface(PostSdsEnvI), os_services=self._os_services, tcds=Any_,
+                atc_input=Iface(AtcInputI), exe_atc_and_skip_assertions=self.exe_conf[3],
+                _atc_outcome=None).make(interp, name)
+
+
+M.contract(P_EX + ':_PartialExecutor._construct_and_set_act_phase_executor',
+           params=dict(self=_mk_partial_executor('post-sds')), old=lambda self: result_state(self),
+           modifies={'self._act_phase_executor': Dependent(_new_atc_executor)},
+           ensures={
+               'a fresh executor of the parsed action to check, without outcome': lambda self:
+               type(self._act_phase_executor) is pax.ActionToCheckExecutor
+               and self._act_phase_executor.atc is self._action_to_check
+               and self._act_phase_executor.action_to_check_outcome is None
+               and self._act_phase_executor.exe_atc_and_skip_assertions is self.exe_conf.exe_atc_and_skip_assertions,
+               'no step is run': lambda trace: trace == [],
+               'keeps sandbox and outcome of the action to check': lambda self, old: keeps_result_state(self, old),
+           },
+           raises_only=())
+
+M.contract(P_EX + ':_PartialExecutor._setup_pre_sds_environment',
+           params=dict(self=_mk_partial_executor('initial'), atc=Iface(AtcI), symbols=Iface(SymbolTableI)),
+           old=lambda self: result_state(self),
+           modifies={'self._action_to_check': Dependent(lambda interp, name, env: env['atc']),
+                     'self._instruction_environment_pre_sds': Iface(PreSdsEnvI)},
+           ensures={
+               'stores the parsed action to check': lambda self, atc: self._action_to_check is atc,
+               'no step is run': lambda trace: trace == [],
+               'keeps sandbox and outcome of the action to check': lambda self, old: keeps_result_state(self, old),
+           },
+           raises_only=())
+
+# owned by C04 (stand-in): construction of the sandbox; the only thing C01 needs is the event and that a sandbox
+# exists afterwards.  OSError: the file system may refuse.
+M.contract(P_EX + ':_PartialExecutor._setup_post_sds_environment', trusted=True,
+           params=dict(self=_mk_partial_executor('pre-sds')), event=SDS,
+           modifies={'self._PartialExecutor__sandbox_directory_structure': Iface(SdsI),
+                     'self._phase_tmp_space_factory': Iface(TmpSpaceFactoryI),
+                     'self._PartialExecutor__post_sds_symbol_table': Iface(SymbolTableI)},
+           may_raise=(OSError,))
+M.trust('stand-in for the contract owned by C04: _setup_post_sds_environment creates the sandbox (event SDS), sets '
+        'the sandbox, the tmp-space factory and the post-sds symbol table, or raises OSError')
+
+# ----- act parse and symbol validation
+
+ACT_HELPER = Custom(lambda interp, name: _mk_act_helper(interp, name, Str.make(interp, name + '.actor'),
+                                                        PHASE.make(interp, name + '.act')))
+
+M.contract(P_AH + ':ActHelper.parse', params=dict(self=ACT_HELPER, actor=Iface(ActorI)),
+           event='act-parse', returns=Iface(AtcI),
+           ensures={'the action to check is what the actor parsed from the instructions of [act]':
+                    lambda self, actor, result, trace:
+                    calls_of(trace, 'actor.parse') == [('actor.parse', actor, (self.instructions,))]
+                    and outcome_event(trace, 'actor.parse') == ('returned', result)},
+           raises={PhaseStepFailureException: {
+               'shape': Inst(PhaseStepFailureException, failure=act_failure_shape(S.ACT__PARSE)),
+               'ensures': lambda exc, actor, trace:
+               len(calls_of(trace, 'actor.parse')) == 1 and outcome_event(trace, 'actor.parse')[0] == 'raised'
+               and exc.failure.status.name == ('SYNTAX_ERROR' if isinstance(outcome_event(trace, 'actor.parse')[1],
+                                                                            ParseException)
+                                               else kind_of_raised(outcome_event(trace, 'actor.parse')[1]))
+               and exc.failure.failure_info.phase_step is S.ACT__PARSE}},
+           raises_only=())
+
+# owned by C08 (stand-in): checking the symbol usages of one instruction against the symbol table
+M.contract('exactly_lib.execution.impl.symbol_validation:validate_symbol_usages', trusted=True,
+           params=dict(symbol_usages=Any_, symbols=Iface(SymbolTableI)), returns=Opt(FAIL_INFO),
+           event='validate_symbol_usages')
+M.trust('stand-in for the contract owned by C08: validate_symbol_usages returns None or a failure info and does not raise')
+
+
+def _mk_symbols_validator(interp, name):
+    from pyvc.interp import BoundMethod
+    v = object.__new__(psv.SymbolsValidator)
+    v._symbols = Iface(SymbolTableI).make(interp, name + '._symbols')
+    v._test_case = TEST_CASE.make(interp, name + '._test_case')
+    v._action_to_check = Iface(AtcI).make(interp, name + '._action_to_check')
+    helper = _mk_act_helper(interp, name + '.act_helper', Str.make(interp, name + '.actor'), v._test_case.act_phase)
+    v._mk_atc_failure_con = BoundMethod(pah.ActHelper.__dict__['failure_constructor'], helper, pah.ActHelper)
+    x = object.__new__(psv.ValidateSymbolsExecutor)
+    x._ValidateSymbolsExecutor__symbols = v._symbols
+    v._validation_executor = x
+    return v
+
+
+SYMBOLS_VALIDATOR = Custom(_mk_symbols_validator)
+
+M.contract(P_SV + ':SymbolsValidator._validate_atc', params=dict(self=SYMBOLS_VALIDATOR), event='_validate_atc',
+           ensures={'the symbol usages of the action to check are valid': lambda self, trace:
+           calls_of(trace, 'atc.symbol_usages') == [('atc.symbol_usages', self._action_to_check, ())]
+           and len(calls_of(trace, 'validate_symbol_usages')) == 1
+           and calls_of(trace, 'validate_symbol_usages')[0][1]['symbols'] is self._symbols
+           and outcome_event(trace, 'validate_symbol_usages')[1] is None},
+           raises={PhaseStepFailureException: {
+               'shape': Inst(PhaseStepFailureException, failure=act_failure_shape(S.ACT__VALIDATE_SYMBOLS)),
+               'ensures': lambda self, exc, trace:
+               calls_of(trace, 'atc.symbol_usages') == [('atc.symbol_usages', self._action_to_check, ())]
+               and exc.failure.failure_info.phase_step is S.ACT__VALIDATE_SYMBOLS
+               and exc.failure.status.name == (
+                   kind_of_raised(outcome_event(trace, 'atc.symbol_usages')[1])
+                   if outcome_event(trace, 'atc.symbol_usages')[0] == 'raised'
+                   else outcome_event(trace, 'validate_symbol_usages')[1].status.name)}},
+           raises_only=())
+
+
+def step_events(trace):
+    """events of the steps: starts only"""
+    return [e for e in trace if e[0] in STEP_OF_EVENT or e[0] == 'run-step']
+
+
+M.contract(P_SV + ':SymbolsValidator.validate', params=dict(self=SYMBOLS_VALIDATOR), inline=True,
+           ensures={'all five phases, in order, with the one table of symbols': lambda self, trace:
+           [(step_of(e), e[1].get('phase_contents'), e[1].get('instruction_executor')) for e in step_events(trace)] == [
+               (S.SETUP__VALIDATE_SYMBOLS, self._test_case.setup_phase, self._validation_executor),
+               (S.ACT__VALIDATE_SYMBOLS, None, None),
+               (S.BEFORE_ASSERT__VALIDATE_SYMBOLS, self._test_case.before_assert_phase, self._validation_executor),
+               (S.ASSERT__VALIDATE_SYMBOLS, self._test_case.assert_phase, self._validation_executor),
+               (S.CLEANUP__VALIDATE_SYMBOLS, self._test_case.cleanup_phase, self._validation_executor)]},
+           raises={PhaseStepFailureException: {'ensures': lambda self, exc, trace:
+           exc is trace[-1][2] and step_of(step_events(trace)[-1]) is exc.failure.failure_info.phase_step}},
+           raises_only=())
+
+# ----- events -> steps
+
+STEP_OF_EVENT = {'act-parse': S.ACT__PARSE, '_validate_atc': S.ACT__VALIDATE_SYMBOLS, SDS: SDS,
+                 '_act__execute': S.ACT__EXECUTE}
+STEP_OF_EVENT.update({m: v[0] for m, v in INSTRUCTION_STEPS.items()})
+STEP_OF_EVENT.update({m: v[0] for m, v in ATC_STEPS.items()})
+
+
+def step_of(e):
+    return e[1]['step'] if e[0] == 'run-step' else STEP_OF_EVENT[e[0]]
+
+
+# ====================================================================================== layer 4: the protocol
+
+def steps_of(trace):
+    """The steps of an execution in order: (step, start event, 'returned' / 'raised', payload of the outcome).
+    (The outcome event of a step follows its start event immediately: steps do not nest.)"""
+    out = []
+    for i, e in enumerate(trace):
+        if e[0] in STEP_OF_EVENT or e[0] == 'run-step':
+            o = trace[i + 1]
+            out.append((step_of(e), e, o[0][len(e[0]) + 1:], o[2]))
+    return out
+
+
+def is_cleanup(s):
+    return s[0] is S.CLEANUP__MAIN
+
+
+def failed(s):
+    return s[2] == 'raised'
+
+
+def forward(steps):
+    """the steps that make forward progress (everything but cleanup/main)"""
+    return [s for s in steps if not is_cleanup(s)]
+
+
+def sandbox_exists(steps):
+    return any(s[0] == SDS and not failed(s) for s in steps)
+
+
+def in_documented_order(steps):
+    names = [s[0] for s in forward(steps)]
+    return names == CANONICAL[:len(names)]
+
+
+def halts_at_first_failure(steps):
+    return all(not failed(s) for s in forward(steps)[:-1])
+
+
+def runs_to_the_end_unless_a_step_fails(steps, skip_assertions):
+    fw = forward(steps)
+    return failed(fw[-1]) or [s[0] for s in fw] == (UP_TO_ACT_EXECUTE if skip_assertions else CANONICAL)
+
+
+def phase_that_ran_last(steps):
+    last = forward(steps)[-1][0]
+    if last is S.ASSERT__MAIN:
+        return PreviousPhase.ASSERT
+    if last is S.BEFORE_ASSERT__MAIN:
+        return PreviousPhase.BEFORE_ASSERT
+    if last is S.ACT__EXECUTE:
+        return PreviousPhase.ACT
+    return PreviousPhase.SETUP      # setup/main, post-setup validation, preparation of the action to check
+
+
+def cleanup_exactly_once_iff_sandbox(steps):
+    cs = [s for s in steps if is_cleanup(s)]
+    if not sandbox_exists(steps):
+        return cs == []
+    return len(cs) == 1 and steps[-1] is cs[0] and cs[0][1][1]['previous_phase'] is phase_that_ran_last(steps)
+
+
+def phase_step_failures(steps):
+    return [s for s in steps if failed(s) and s[0] != SDS]
+
+
+def reports(result, s):
+    """the result carries the failure of step s: its status, its failure info (which names the step)"""
+    f = s[3].failure
+    return result.status is f.status and result.failure_info is f.failure_info \
+        and result.failure_info.phase_step is s[0]
+
+
+def outcome_is_earliest_failure_or_cleanup_failure(result, steps):
+    fs = phase_step_failures(steps)
+    if not fs:
+        return result.status is None and result.failure_info is None
+    return result.status is not None and (reports(result, fs[0]) or (is_cleanup(fs[-1]) and reports(result, fs[-1])))
+
+
+def act_execute_of(steps):
+    return [s for s in steps if s[0] is S.ACT__EXECUTE]
+
+
+def atc_outcome_iff_executed(result, steps):
+    ae = act_execute_of(steps)
+    if not ae:
+        return result.action_to_check_outcome is None
+    return failed(ae[0]) or result.action_to_check_outcome is not None
+
+
+PROTOCOL = {
+    'order: steps run in the documented order (all validation before the sandbox and any main step)':
+        lambda trace: in_documented_order(steps_of(trace)),
+    'halt: no forward step after one that did not succeed':
+        lambda trace: halts_at_first_failure(steps_of(trace)),
+    'progress: every step runs unless an earlier one fails':
+        lambda self, trace: runs_to_the_end_unless_a_step_fails(steps_of(trace),
+                                                                self.exe_conf.exe_atc_and_skip_assertions is not None),
+    'cleanup: exactly once iff the sandbox exists, as the last step, told the phase that ran last':
+        lambda trace: cleanup_exactly_once_iff_sandbox(steps_of(trace)),
+    'outcome: success iff no step failed, else the earliest failure or the failure of cleanup':
+        lambda result, trace: outcome_is_earliest_failure_or_cleanup_failure(result, steps_of(trace)),
+    'outcome: has the sandbox iff it was created': lambda self, result, trace:
+    result.sds is self._sds and result.has_sds == sandbox_exists(steps_of(trace)),
+    'outcome: has the outcome of the action to check if it was executed, none if execution was not reached':
+        lambda result, trace: atc_outcome_iff_executed(result, steps_of(trace)),
+}
+
+M.contract(P_EX + ':_PartialExecutor.execute', params=dict(self=_mk_partial_executor('initial')), inline=True,
+           ensures=PROTOCOL,
+           raises={OSError: {'ensures': lambda trace:
+           in_documented_order(steps_of(trace)) and halts_at_first_failure(steps_of(trace))
+           and steps_of(trace)[-1][0] == SDS and failed(steps_of(trace)[-1])}},
+           raises_only=())
+
+M.contract(P_EX + ':parse_atc_and_validate_symbols',
+           params=dict(actor=Inst(NameAndValue, _tuple=[Str, Iface(ActorI)]), predefined_symbols=Iface(SymbolTableI),
+                       test_case=TEST_CASE), inline=True,
+           ensures={'act parse, then symbol validation of all phases': lambda trace, test_case:
+           [s[0] for s in steps_of(trace)] == CANONICAL[:6] and not any(failed(s) for s in steps_of(trace)),
+                    'gives the parsed action to check': lambda result, trace:
+                    result[0] is steps_of(trace)[0][3]},
+           raises={PhaseStepFailureException: {'ensures': lambda exc, trace:
+           in_documented_order(steps_of(trace)) and halts_at_first_failure(steps_of(trace))
+           and failed(steps_of(trace)[-1]) and exc is steps_of(trace)[-1][3]}},
+           raises_only=())
